@@ -104,6 +104,11 @@ fn quick_grid() -> Vec<GridPoint> {
         GridPoint { t: "1+1+1", w: 8, d: 0, sparse: true, pred: Default, prog: Runs, lat: 0 },
         GridPoint { t: "2+2", w: 3, d: 1, sparse: false, pred: Default, prog: Runs, lat: 2 },
         GridPoint { t: "2+2", w: 2, d: 3, sparse: true, pred: RepeatLast, prog: Changing, lat: 1 },
+        // several remote players whose predictions go wrong at different frames, full saving
+        GridPoint { t: "1+1+1", w: 3, d: 0, sparse: false, pred: RepeatLast, prog: Changing, lat: 1 },
+        GridPoint { t: "1+2", w: 8, d: 0, sparse: false, pred: RepeatLast, prog: Runs, lat: 1 },
+        GridPoint { t: "1+1+1+1", w: 3, d: 0, sparse: false, pred: Default, prog: Changing, lat: 1 },
+        GridPoint { t: "2+2", w: 8, d: 0, sparse: false, pred: RepeatLast, prog: Runs, lat: 2 },
     ]
 }
 
@@ -224,6 +229,12 @@ pub fn core_parts(rep: &mut Report, props: &[&str], checks: u32) {
                         }
                         if dirs == 1 || dirs == 2 {
                             s.outages.push(Outage { from: b, to: a, start, len, classes: CLASS_ALL });
+                        }
+                        // with three or more peers also the link from the last peer, shifted, so
+                        // that bursts from different peers overlap in one poll
+                        if s.peers.len() >= 3 && dirs == 2 {
+                            let c = s.peers[s.peers.len() - 1].addr;
+                            s.outages.push(Outage { from: c, to: a, start: start + 2, len: (len - 2).max(1), classes: CLASS_ALL });
                         }
                         scns.push(s);
                     }
@@ -418,19 +429,25 @@ fn spectator_part(rep: &mut Report, props: &[&str], checks: u32) {
     let judge = &no_judge;
     let mut scns = Vec::new();
     for (t, w) in [("1+1", 2usize), ("2+1", 8), ("1+1", 0)] {
-        for catchup in [1usize, 3] {
-            let mut s = base_scn("core-spectator", t, w, 0, false, Pred::RepeatLast, Program::Changing, 1);
-            let mut sp = SpecSpec::new(20, s.peers[0].addr);
-            sp.catchup = catchup;
-            sp.max_behind = 3;
-            sp.pauses = vec![(6, 8)];
-            s.specs.push(sp);
-            s.name = format!("{} +spectator catchup={catchup}", s.name);
-            s.horizon = 14;
-            s.probe = 40;
-            s.checks = checks;
-            s.fault = packet_faults(3, 4, CLASS_INPUT | CLASS_INPUT_ACK, vec![Fate::Drop, Fate::Delay(2)], 0);
-            scns.push(s);
+        for (catchup, max_behind) in [(1usize, 3usize), (3, 3), (5, 1), (70, 2)] {
+            for pause in [8, 3, 5] {
+                if pause != 8 && catchup < 5 {
+                    continue;
+                }
+                let mut s = base_scn("core-spectator", t, w, 0, false, Pred::RepeatLast, Program::Changing, 1);
+                let mut sp = SpecSpec::new(20, s.peers[0].addr);
+                sp.catchup = catchup;
+                sp.max_behind = max_behind;
+                sp.pauses = vec![(6, pause)];
+                sp.pause_polls = pause == 5;
+                s.specs.push(sp);
+                s.name = format!("{} +spectator catchup={catchup} max_behind={max_behind} pause={pause}", s.name);
+                s.horizon = 14;
+                s.probe = 40;
+                s.checks = checks;
+                s.fault = packet_faults(3, 4, CLASS_INPUT | CLASS_INPUT_ACK, vec![Fate::Drop, Fate::Delay(2)], 0);
+                scns.push(s);
+            }
         }
     }
     let cfg = ExploreCfg { k: Some(if rep.thorough() { 2 } else { 1 }), wall: Duration::from_secs(if rep.thorough() { 600 } else { 30 }), ..Default::default() };
